@@ -39,3 +39,14 @@ def _fresh(ip, args, kw, fr):
         from .sorts import Val
         return mk_bool(z3.And(Val.is_r(v.e), Val.rv(v.e) >= ip.st.alloc0))
     raise Unsupported(f'fresh() of {v.k}')
+
+
+def abstract(ret='str'):
+    """Mark a spec function as *abstract*: symbolically it is an uninterpreted function of its
+    arguments and of the heap version (so two evaluations in the same heap agree and nothing else is
+    known about it); natively it runs its body.  Used to name the result of a callee without
+    re-expanding the callee's specification inside every caller (modular composition)."""
+    def deco(fn):
+        fn._pyvc_abstract = (fn.__name__, ret)
+        return fn
+    return deco
